@@ -577,7 +577,7 @@ STEREO = [
     "F/C=C/Cl", "F/C=C\\Cl", "C/C=C/C", "C/C=C\\C", "CC/C=C/CO", "CC/C=C\\CO", "F/C=C/C=C/F", "F/C=C\\C=C/Cl",
     "C/C(F)=C/Cl", "OC/C=C/c1ccccc1", "N/C=C/CO", "ClC/C=C\\CBr", "C[C;x=R](F)/C=C/Cl", "C[C;x=S](O)CC",
     "N[C;x=R](C)C(=O)O", "C[C;x=R](F)C[C;x=S](Cl)O", "F/C=C/CC[C;x=S](C)O",
-    "CSc1ccc(cc1)/C=C/F", "CSc1ccc(cc1)[C;x=S](O)C(F)(F)F", "F/C=C/[C;x=S](Cl)O", "C/C=C\\[C;x=R](F)CC", "[O-]/C=C/C", "C/C=C/[NH3+]", "[H]/N=C(/C)CC", "[H]/C(C)=C/F",
+    "CSc1ccc(cc1)/C=C/F", "CSc1ccc(cc1)[C;x=S](O)C(F)(F)F", "F/C=C/[C;x=S](Cl)O", "C/C=C\\[C;x=R](F)CC", "[O-]/C=C/C", "C/C=C/[NH3+]",
 ]
 
 
